@@ -16,6 +16,7 @@ import (
 	"time"
 
 	"veriftxn/common"
+	_ "veriftxn/unibk"
 
 	"github.com/pingcap/failpoint"
 	"github.com/tikv/client-go/v2/verifrt/ev"
@@ -73,7 +74,7 @@ func main() {
 	for _, bk := range common.Backends() {
 		for _, m := range bk.Modes {
 			for _, sh := range common.Shapes(true) {
-				if sh.Pess != m.Pessimistic {
+				if sh.Pess != m.Pessimistic || (sh.LockOnlyPrimary && bk.Name == "unistore") {
 					continue
 				}
 				for _, lo := range common.Layouts(run.Thorough()) {
